@@ -164,24 +164,35 @@ package types
 //@ requires matchPrice > 0 && sellingAmt >= 0 && capsOK(allowedBidders) && bookOK(prices, bidsByPrice, allowedBidders) && sortedDesc(prices)
 //@ ensures [C05,C03] never-more-than-the-offer: res != nil ==> 0 <= res.MatchedAmount && res.MatchedAmount <= sellingAmt && res.MatchPrice == matchPrice
 //@ ensures [C03,C05] each-bidder-gets-the-capped-demand: res != nil ==> forall(w, string, forall(k, int, 0 <= k && k < len(allowedBidders) && allowedBidders[k].Bidder == w ==> matchedOf(res, w) == min(allowedBidders[k].MaxBidAmount, demUpTo(w, prices, bidsByPrice, len(prices), matchPrice))))
-//@ ensures [C05,C10] only-allow-listed-bidders-are-matched: res != nil ==> forall(w, string, has(res.MatchResultByBidder, w) ==> exists(k, int, 0 <= k && k < len(allowedBidders) && allowedBidders[k].Bidder == w))
-//@ ensures [C04] pays-the-matching-price-within-one-unit-per-bid: res != nil ==> forall(w, string, has(res.MatchResultByBidder, w) ==> let(r, res.MatchResultByBidder[w], matchPrice * r.MatchedAmount <= r.PayingAmount * S && r.PayingAmount * S <= matchPrice * r.MatchedAmount + S * cntUpTo(w, prices, bidsByPrice, len(prices), matchPrice) && r.MatchedAmount >= 0 && r.PayingAmount >= 0))
-//@ ensures [C16,C03] only-bids-that-receive-coins-are-listed-as-matched: res != nil ==> forall(j, int, 0 <= j && j < len(res.MatchedBids) ==> qtyAt(res.MatchedBids[j], matchPrice) > 0 && exists(k, int, 0 <= k && k < len(allowedBidders) && allowedBidders[k].Bidder == res.MatchedBids[j].Bidder))
+//@ ensures [C03] {exact} total-sold-is-the-capped-demand: res != nil ==> res.MatchedAmount == cappedDemand(allowedBidders, prices, bidsByPrice, matchPrice)
+//@ ensures [C03] {exact} gives-up-only-when-the-capped-demand-exceeds-the-offer: res == nil ==> cappedDemand(allowedBidders, prices, bidsByPrice, matchPrice) > sellingAmt
+//@ ensures [C05,C10] only-allow-listed-bidders-are-matched: res != nil ==> forall(w, string, has(res.MatchResultByBidder, w) ==> indexIn(allowedBidders, Bidder, w) >= 0)
+//@ ensures [C04] {pay} pays-the-matching-price-within-one-unit-per-bid: res != nil ==> forall(w, string, has(res.MatchResultByBidder, w) ==> let(r, res.MatchResultByBidder[w], matchPrice * r.MatchedAmount <= r.PayingAmount * S && r.PayingAmount * S <= matchPrice * r.MatchedAmount + S * cntUpTo(w, prices, bidsByPrice, len(prices), matchPrice) && r.MatchedAmount >= 0 && r.PayingAmount >= 0))
+//@ ensures [C16,C03] only-bids-that-receive-coins-are-listed-as-matched: res != nil ==> forall(j, int, 0 <= j && j < len(res.MatchedBids) ==> qtyAt(res.MatchedBids[j], matchPrice) > 0 && indexIn(allowedBidders, Bidder, res.MatchedBids[j].Bidder) >= 0)
 //@ ensures [C16,C03] something-listed-iff-something-sold: res != nil ==> (matched == (len(res.MatchedBids) > 0)) && ((len(res.MatchedBids) > 0) == (res.MatchedAmount > 0))
 //@ loop 0 invariant 0 <= idx && idx <= len(allowedBidders) && res.MatchedAmount == 0 && len(res.MatchedBids) == 0 && res.MatchPrice == matchPrice && forall(w, string, !has(res.MatchResultByBidder, w))
 //@ loop 0 invariant forall(k, int, 0 <= k && k < idx ==> has(biddableAmtByBidder, allowedBidders[k].Bidder) && biddableAmtByBidder[allowedBidders[k].Bidder] == allowedBidders[k].MaxBidAmount)
-//@ loop 0 invariant forall(w, string, has(biddableAmtByBidder, w) ==> exists(k, int, 0 <= k && k < idx && allowedBidders[k].Bidder == w))
+//@ loop 0 invariant forall(w, string, has(biddableAmtByBidder, w) ==> indexIn(allowedBidders, Bidder, w) >= 0 && indexIn(allowedBidders, Bidder, w) < idx)
 //@ loop 1 let CAP = biddableAmtByBidder
 //@ loop 1 invariant 0 <= idx && idx <= len(prices) && forall(i, int, 0 <= i && i < idx ==> prices[i] >= matchPrice)
 //@ loop 1 invariant matchedBidsOK(res, allowedBidders, matchPrice) && (matched == (len(res.MatchedBids) > 0)) && ((len(res.MatchedBids) > 0) == (res.MatchedAmount > 0))
 //@ loop 1 invariant matchCore(res, biddableAmtByBidder, CAP, allowedBidders, sellingAmt, matchPrice)
-//@ loop 1 invariant forall(w, string, cntUpTo(w, prices, bidsByPrice, idx, matchPrice) >= 0 && demUpTo(w, prices, bidsByPrice, idx, matchPrice) >= 0)
-//@ loop 1 invariant forall(w, string, has(CAP, w) ==> matchedOf(res, w) == min(CAP[w], demUpTo(w, prices, bidsByPrice, idx, matchPrice)) && payBounds(res, w, matchPrice, cntUpTo(w, prices, bidsByPrice, idx, matchPrice)))
+//@ loop 1 invariant {exact} res.MatchedAmount == matchedTotal(res, allowedBidders)
+//@ loop 1 invariant {exact} forall(w, string, demUpTo(w, prices, bidsByPrice, idx, matchPrice) <= demUpTo(w, prices, bidsByPrice, len(prices), matchPrice))
+//@ loop 1 invariant forall(w, string, demUpTo(w, prices, bidsByPrice, idx, matchPrice) >= 0)
+//@ loop 1 invariant {pay} forall(w, string, cntUpTo(w, prices, bidsByPrice, idx, matchPrice) >= 0)
+//@ loop 1 invariant forall(w, string, has(CAP, w) ==> matchedOf(res, w) == min(CAP[w], demUpTo(w, prices, bidsByPrice, idx, matchPrice)))
+//@ loop 1 invariant {pay} forall(w, string, has(CAP, w) ==> payBounds(res, w, matchPrice, cntUpTo(w, prices, bidsByPrice, idx, matchPrice)))
 //@ loop 2 invariant 0 <= idx && idx <= len(bidsByPrice[decStr(price)]) && price == prices[idx1] && 0 <= idx1 && idx1 < len(prices) && price >= matchPrice && forall(i, int, 0 <= i && i < idx1 ==> prices[i] >= matchPrice)
 //@ loop 2 invariant matchCore(res, biddableAmtByBidder, CAP, allowedBidders, sellingAmt, matchPrice)
+//@ loop 2 invariant {exact} forall(w, string, demUpTo(w, prices, bidsByPrice, idx1, matchPrice) + demGroup(w, bidsByPrice[decStr(prices[idx1])], idx, matchPrice) <= demUpTo(w, prices, bidsByPrice, idx1+1, matchPrice) && demUpTo(w, prices, bidsByPrice, idx1+1, matchPrice) <= demUpTo(w, prices, bidsByPrice, len(prices), matchPrice))
+//@ loop 2 invariant {exact} idx < len(bidsByPrice[decStr(price)]) ==> let(g, bidsByPrice[decStr(prices[idx1])], let(w, g[idx].Bidder, demUpTo(w, prices, bidsByPrice, idx1, matchPrice) + demGroup(w, g, idx+1, matchPrice) <= demUpTo(w, prices, bidsByPrice, idx1+1, matchPrice) && demUpTo(w, prices, bidsByPrice, idx1+1, matchPrice) <= demUpTo(w, prices, bidsByPrice, len(prices), matchPrice)))
+//@ loop 2 invariant {exact} res.MatchedAmount == matchedTotal(res, allowedBidders) && indexIn(allowedBidders, Bidder, bidsByPrice[decStr(price)][idx].Bidder) >= -1
 //@ loop 2 invariant matchedBidsOK(res, allowedBidders, matchPrice) && (matched == (len(res.MatchedBids) > 0)) && ((len(res.MatchedBids) > 0) == (res.MatchedAmount > 0))
-//@ loop 2 invariant forall(w, string, cntUpTo(w, prices, bidsByPrice, idx1, matchPrice) >= 0 && cntGroup(w, bidsByPrice[decStr(price)], idx) >= 0 && demUpTo(w, prices, bidsByPrice, idx1, matchPrice) >= 0 && demGroup(w, bidsByPrice[decStr(price)], idx, matchPrice) >= 0)
-//@ loop 2 invariant forall(w, string, has(CAP, w) ==> matchedOf(res, w) == min(CAP[w], demUpTo(w, prices, bidsByPrice, idx1, matchPrice) + demGroup(w, bidsByPrice[decStr(price)], idx, matchPrice)) && payBounds(res, w, matchPrice, cntUpTo(w, prices, bidsByPrice, idx1, matchPrice) + cntGroup(w, bidsByPrice[decStr(price)], idx)))
+//@ loop 2 invariant forall(w, string, demUpTo(w, prices, bidsByPrice, idx1, matchPrice) >= 0 && demGroup(w, bidsByPrice[decStr(price)], idx, matchPrice) >= 0)
+//@ loop 2 invariant {pay} forall(w, string, cntUpTo(w, prices, bidsByPrice, idx1, matchPrice) >= 0 && cntGroup(w, bidsByPrice[decStr(price)], idx) >= 0)
+//@ loop 2 invariant forall(w, string, has(CAP, w) ==> matchedOf(res, w) == min(CAP[w], demUpTo(w, prices, bidsByPrice, idx1, matchPrice) + demGroup(w, bidsByPrice[decStr(price)], idx, matchPrice)))
+//@ loop 2 invariant {pay} forall(w, string, has(CAP, w) ==> payBounds(res, w, matchPrice, cntUpTo(w, prices, bidsByPrice, idx1, matchPrice) + cntGroup(w, bidsByPrice[decStr(price)], idx)))
 
 // GenesisState.Validate (C15) accepts every genesis state whose objects are individually valid and whose store keys are
 // pairwise distinct: (auction id, bidder), (auction id, release time), (auction id, bid id), auction id. Only this
